@@ -15,6 +15,8 @@ func genAll() {
 	genDerefs()
 	genListeners()
 	genEcho()
+	genBroadcast()
+	genDKGAuth()
 	genBeaconNode()
 	genDKGRun()
 	genSync()
